@@ -2,6 +2,6 @@ SPECIFICATION Spec
 CONSTANTS
   Mode = "ref"
   Tier = "quick"
-  RefN = 40
+  RefN = 60
 INVARIANTS RefLawsHold NeverRejects FinalTable Emit
 CHECK_DEADLOCK FALSE
